@@ -612,6 +612,158 @@ def clause9_unmask(ctx, P):
     ctx.ob("C06.6 R-BOUND", f, "mask-index-modulo-4", okm and nm >= 3, "the masking key is read at an index that is not reduced modulo 4")
 
 
+NONNULL_ARGS = {"memcpy": (0, 1), "memmove": (0, 1), "memcmp": (0, 1), "strlen": (0,), "strcmp": (0, 1), "strncmp": (0, 1),
+                "strcasecmp": (0, 1), "strncasecmp": (0, 1), "strchr": (0,), "memchr": (0,), "memset": (0,),
+                "llvm.memcpy": (0, 1), "llvm.memmove": (0, 1), "llvm.memset": (0,)}
+
+
+def clause17_null_with_zero_length(ctx, P, cg):
+    """'(NULL, 0)' for an empty payload is handed down through callbacks.  The C library's copy and compare functions have
+    undefined behaviour for a null pointer even when the length is 0, and a dereference is a crash: wherever such a pointer
+    parameter (followed from every call that passes a literal NULL together with a literal 0, through direct and resolved indirect
+    calls, keeping the pairing pointer/length) reaches one of these functions or a load/store, the site is dominated by a test
+    that excludes it - the pointer is not null, or the companion length is not 0 (`len > 0`, `len != 0`, `i < len`)."""
+    work = []
+    seen = set()
+
+    def push(g, pi, li, origin):
+        k = (g.name, pi, li)
+        if k not in seen and pi < g.nparams:
+            seen.add(k)
+            work.append((g, pi, li, origin))
+    nsrc = 0
+    for f in P.own_functions():
+        for c in f.all_insts():
+            if c.op != "call":
+                continue
+            nulls = [k for k, a in enumerate(c.a) if P.is_null(a)]
+            zeros = [k for k, a in enumerate(c.a) if not isinstance(a, int) and not P.is_null(a) and P.const_int(a) == 0]
+            if not nulls or not zeros:
+                continue
+            for tn in cg.targets(f, c):
+                g = P.functions.get(tn)
+                if g is None or not P.own(g):
+                    continue
+                for k in nulls:
+                    # the companion: the zero literal that follows the pointer in the argument list (buf, len)
+                    comp = [z for z in zeros if z == k + 1 and z < g.nparams and g.params[z]["ty"].startswith("i") and not g.params[z]["ty"].endswith("*")]
+                    if comp:
+                        nsrc += 1
+                        push(g, k, comp[0], "%s() called with (NULL, 0) at %s" % (g.srcname, c.loc))
+    nsink = 0
+    bad = []
+    while work:
+        g, pi, li, origin = work.pop()
+
+        def is_p(o, idx):
+            return P.strip(g, o) == idx
+
+        def excluded(block):
+            def guard(atom, pol):
+                pt = ("param", pi, g.params[pi]["name"])
+                lt = ("param", li, g.params[li]["name"])
+                if atom[0] == "cmp":
+                    a, b, pred = atom[2], atom[3], atom[1]
+                    if a == pt and b == ("null",):
+                        return (pred == "ne") == bool(pol)
+                    if a == lt and b[0] == "const":
+                        # the edge is taken only when `len <pred> c` has the truth value pol: excluded iff `0 <pred> c` has the other
+                        c = b[1]
+                        cu = c & 0xFFFFFFFFFFFFFFFF
+                        holds = {"eq": 0 == c, "ne": 0 != c, "ult": 0 < cu, "ule": 0 <= cu, "ugt": 0 > cu, "uge": 0 >= cu,
+                                 "slt": 0 < c, "sle": 0 <= c, "sgt": 0 > c, "sge": 0 >= c}.get(pred)
+                        return holds is not None and holds != bool(pol)
+                    if b == lt and pred in ("ult", "slt") and pol:      # i < len
+                        return True
+                    if b == lt and pred in ("uge", "sge") and not pol:  # !(i >= len)
+                        return True
+                    if a == lt and pred in ("ugt", "sgt") and pol:      # len > i
+                        return True
+                    if a == lt and pred in ("ule", "sle") and not pol:  # !(len <= i)
+                        return True
+                if atom[0] == "truth":
+                    return atom[1] in (pt, lt) and pol
+                return False
+            return Q.must_pass(P, g, block, guard)
+        for i in g.all_insts():
+            if i.op == "call":
+                ks = [k for k, a in enumerate(i.a) if is_p(a, pi)]
+                if not ks:
+                    continue
+                name = P.srcname_of(i.callee) if i.callee else None
+                base = None
+                if name:
+                    base = name if name in NONNULL_ARGS else next((n for n in NONNULL_ARGS if name.startswith(n + ".")), None)
+                if base is not None:
+                    if any(k in NONNULL_ARGS[base] for k in ks):
+                        nsink += 1
+                        if not excluded(i.block):
+                            bad.append((g, i, "%s()" % base, origin))
+                    continue
+                ls = [k for k, a in enumerate(i.a) if is_p(a, li)]
+                for tn in cg.targets(g, i):
+                    h = P.functions.get(tn)
+                    if h is None or not P.own(h):
+                        continue
+                    if excluded(i.block):
+                        continue
+                    for k in ks:
+                        if ls:
+                            push(h, k, ls[0], origin)
+                        elif k + 1 < len(i.a) and not isinstance(i.a[k + 1], int) and P.const_int(i.a[k + 1]) == 0:
+                            push(h, k, k + 1, origin)
+            elif i.op in ("load", "store"):
+                addr = i.a[0] if i.op == "load" else i.a[1]
+                lv, _ = Q.leaves(P, g, addr, through_loads=False)
+                if any(l[0] == "param" and l[1] == pi for l in lv):
+                    nsink += 1
+                    if not excluded(i.block):
+                        bad.append((g, i, "a %s through it" % i.op, origin))
+    ctx.ob("C06.12 R-NULL", P.fn("websocket.c:ws_get_payload"), "null-with-zero-length-reaches-no-copy-or-dereference",
+           not bad and nsrc >= 1 and nsink >= 1,
+           ("%s: the pointer parameter '%s' of %s() can be the NULL of an empty payload (%s) and reaches %s at %s without a test that "
+            "excludes it (pointer not null, or companion length not 0): undefined behaviour for a null pointer even with length 0" %
+            (len(bad), "payload", bad[0][0].srcname, bad[0][3], bad[0][2], bad[0][1].loc))
+           if bad else "%d (NULL, 0) hand-over sites, %d uses of such parameters, all behind an excluding test" % (nsrc, nsink),
+           detail={"unguarded": ["%s %s at %s" % (b[0].srcname, b[2], b[1].loc) for b in bad[:10]]})
+
+
+def clause18_decoded_string_fits(ctx, P):
+    """parse_string() sizes its output in a scan before it decodes: input bytes between the quotes minus the bytes it declares as
+    producing no output.  An escape of two characters produces one byte, so at most 1 byte may be written off for it; the six
+    characters of \\uXXXX produce up to three bytes (U+0800..U+FFFF), so at most 3 - anything more and the decoder writes behind
+    the allocation"""
+    f = P.fn("cJSON.c:parse_string")
+    skipped = None
+    for i in f.all_insts():
+        if i.op == "call" and not i.callee:
+            t = P.term(f, i.a[0])
+            for x in Q.subterms(t):
+                if x[0] == "op" and x[1] == "sub" and x[2][1][0] == "phi" and Q.mentions(x[2][0], lambda y: y[0] == "op" and y[1] == "sub"):
+                    skipped = x[2][1]
+            if skipped is not None:
+                break
+    if skipped is None:
+        raise AnalysisBroken("parse_string: allocation size 'scanned - skipped' not found")
+    bad = None
+    n = 0
+    for i in f.all_insts():
+        if i.op not in ("add", "sub"):
+            continue
+        t = P.term(f, i.id)
+        if t[0] == "op" and t[2][0] == skipped and t[2][1][0] == "const":
+            k = t[2][1][1] if t[1] == "add" else -t[2][1][1]
+            n += 1
+            is_u = Q.must_pass(P, f, i.block, lambda a, p: a[0] == "cmp" and a[3] == ("const", 117) and a[2][0] == "load" and Q._poleq(a, p))
+            if k > (3 if is_u else 1) and bad is None:
+                bad = (i, k, is_u)
+    ctx.ob("C06.7 R-BOUND", f, "decoded-string-fits-its-allocation", bad is None and n >= 1,
+           ("parse_string() writes %d input bytes off as producing no output for %s at %s; the decoder can produce %d: a string with "
+            "several such escapes is decoded behind the end of its allocation" %
+            (bad[1], "a \\uXXXX escape (6 characters, up to 3 bytes)" if bad[2] else "an escape (2 characters, 1 byte)", bad[0].loc,
+             (6 - 3) if bad[2] else 1)) if bad else "%d accounting step(s), each within what the escape can shrink by" % n)
+
+
 def run(ctx):
     for cfg in ctx.configs():
         P, cg = cfg.P, cfg.cg
@@ -639,4 +791,6 @@ def run(ctx):
         clause6_copies(ctx, P, cg)
         c08.clause5_origin(ctx, P)
         clause8_epoll(ctx, P)
+        clause17_null_with_zero_length(ctx, P, cg)
+        clause18_decoded_string_fits(ctx, P)
         c14.clause3_batch(ctx, P, cg)
